@@ -127,7 +127,7 @@ CHECKS = {
         "bounded-exhaustive enumeration of loop / limit programs x --loop, --width, --depth values x placements (regular test, setUp, invariant target call, second contract with the same test signature) x solver replies for stuck paths, each run end to end by the real run_contract and compared with a brute force on a reference EVM",
         "Programs: `i = 0; while (i < n) i++; if (i == K) Panic(1)` in two loop shapes (exit on the taken branch / back edge on the taken branch), nested loops, concrete trip counts 0..6, a concrete loop containing a symbolic branch, a four-path test, a test whose failing path is long, a test with an unsupported opcode on one branch; "
         "configurations --loop 1,2,3,6, --width 1,2,3, --depth 40,100, a scripted solver answering unknown / garbage for the stuck-path query. Placements: regular check_* tests, setUp() (concrete and fresh-symbol trip counts), target functions spin/spind(uint256) called during invariant testing at depth 1..3, a loop on the stored value inside the invariant body itself (run once per frontier state: a cut in any state must be reported, also when the state explored last has none), two contracts "
-        "with the same test signature run in one process, two overloads of one test name in one contract, and a target function that stops at an unsupported opcode. Oracle per test: if the brute force on the reference EVM finds a failing input within the bounds and halmos reports PASS, a warning naming the limit must have been logged for that test (or bounded loops reported); tests with only concrete loop conditions must be FAIL and never "
+        "with the same test signature run in one process (also two contracts of the same name in different files), two overloads of one test name in one contract, and a target function that stops at an unsupported opcode. Oracle per test: if the brute force on the reference EVM finds a failing input within the bounds and halmos reports PASS, a warning naming the limit must have been logged for that test (or bounded loops reported); tests with only concrete loop conditions must be FAIL and never "
         "carry a loop-bound warning; a path stopped at an unsupported opcode - in the test or in setUp(), at the top level or 1-3 call frames deep - must never leave the test a clean PASS; a symbolic setUp() loop of which exactly one successful path survives the cut must carry the loop-bound warning; in invariant mode the warning is demanded for every invariant test that relies on a cut frontier, whichever runs first.",
         "Trusted: mc/refevm.py, mc/invgen.py BFS, the program generators in props/c10_bounds.py, mc/solverstub.py. Warnings are read from the halmos loggers (rebinding of handlers in the harness process).",
         "DESIGN.md §4 C10",
